@@ -72,6 +72,11 @@ def run_hostile(pid, tier, seed, level_rule):
         validated += n
         tstats["states"] += ts["states"]
         tstats["transitions"] += ts["transitions"]
+    if pid == "C01":
+        # every short Quake text line (QuakeText.tla), inside the grammar or not: never a panic
+        rq, mq = quake_text(pid, tier, w, v)
+        reps += rq
+        mc += mq
     nviol, _ = v.finish()
     cov = std_cov(st + mc + [g], reps, {"rule": level_rule, "exhaustive": False}, validated=validated)
     cov["states"] += tstats["states"]
